@@ -44,7 +44,7 @@ func TestVerif_C20_Cmp(t *testing.T) {
 		case "onebyte", "lastbyte", "firstbyte":
 			copy(b, a)
 			if l > 0 {
-				pos := rapid.IntRange(0, l-1).Draw(t, "pos")
+				pos := gen.Uniform(t, "pos", 0, l-1)
 				if cls == "lastbyte" {
 					pos = l - 1
 				} else if cls == "firstbyte" {
@@ -62,7 +62,7 @@ func TestVerif_C20_Cmp(t *testing.T) {
 		case "borrow":
 			// a = x || 00..00, b = a-1 = (x-1) || FF..FF, or the reverse
 			if l > 0 {
-				k := rapid.IntRange(0, l-1).Draw(t, "chain")
+				k := gen.Uniform(t, "chain", 0, l-1)
 				for i := l - k; i < l; i++ {
 					a[i] = 0
 				}
@@ -92,7 +92,7 @@ func TestVerif_C20_Cmp(t *testing.T) {
 			}
 			// long common prefix
 			if l > 0 {
-				k := rapid.IntRange(0, l).Draw(t, "prefix")
+				k := gen.Uniform(t, "prefix", 0, l)
 				copy(b[:k], a[:k])
 			}
 		}
@@ -214,7 +214,7 @@ func TestVerif_C20_NAF(t *testing.T) {
 			for i := range s {
 				s[i] = 0xff
 			}
-			s[gen.Int(t, "ffpos", 0, 31)] = byte(gen.Int(t, "ffval", 0, 255))
+			s[gen.Uniform(t, "ffpos", 0, 31)] = byte(gen.Uniform(t, "ffval", 0, 255))
 			cls = "allFF-one-varied"
 		}
 		w := gen.Int(t, "w", 1, 7)
